@@ -331,6 +331,7 @@ Decoded decode(Tape& t) {
 	size_t maxlen = g_thorough ? 5000 : 64;
 	size_t flen = t.pick<uint32_t>({0, 1, 2, 5, 8, 16, 33, 64, 64, 64}) ;
 	if (t.flag()) flen = t.below(maxlen + 1);
+	if (!g_thorough && t.below(8) == 0) flen = 256 + t.below(450);   // room behind 8-bit prefixes re-read as unsigned
 	d.full = t.bytes(flen > 300 ? 300 : flen);
 	if (flen > 300) { auto more = t.expand(flen - 300); d.full.insert(d.full.end(), more.begin(), more.end()); }
 	// plant size prefixes / terminators so that typed helpers meet interesting encoded sizes
@@ -420,6 +421,25 @@ void run_sweep(Stats& st) {
 			try { exec_history(Kind(k), src, 9, 0, 0, 0, ops, st, false); }
 			catch (const Violation&) { exec_history(Kind(k), src, 9, 0, 0, 0, ops, st, true); throw; }
 		}
+	// size prefixes with enough data behind them to satisfy their value re-read as unsigned of the same width: a negative
+	// int8/int16 prefix followed by 2^bits + n elements, and the largest positive ones, on every reader kind
+	{
+		std::vector<uint8_t> big(66000 * 2 + 16);
+		for (size_t i = 0; i < big.size(); ++i) big[i] = uint8_t(i * 37 + (i >> 8));
+		const int64_t vals[] = {-1, -2, -3, -127, -128, 127, 126, -32768, -32767, -256, -255, 32767, 255, 256};
+		for (int k = 0; k < KCount; ++k) for (unsigned pt = 0; pt < 2; ++pt) for (unsigned e = 0; e < 2; ++e) for (size_t vi = 0; vi < sizeof vals / sizeof vals[0]; ++vi) {
+			int64_t v = vals[vi];
+			if (pt == 0 && (v < -128 || v > 127)) continue;
+			if (!sw("prefix_room", k, pt, e, vi)) continue;
+			std::vector<uint8_t> src = big;
+			uint64_t winAt = k == KMem ? 0 : (k == KMemSlice || k == KFileSlice) ? 3 : 5;   // absolute start of the window under test
+			src[winAt] = uint8_t(v); if (pt == 1) src[winAt + 1] = uint8_t(uint64_t(v) >> 8);
+			std::vector<OpRec> ops = { {uint8_t(OTypedPrefixed), 0, uint64_t(pt == 0 ? 1 : 3) | (uint64_t(e) << 8)}, {uint8_t(ORead), 1, 3} };
+			Win w = k == KMem ? Win{0, src.size(), 0, 0} : (k == KMemSlice || k == KFileSlice) ? Win{3, src.size() - 3, 0, 0} : Win{3, src.size() - 3, 2, src.size() - 5};
+			try { exec_history(Kind(k), src, w.a, w.n, w.a2, w.n2, ops, st, false); }
+			catch (const Violation&) { g_file_valid = false; exec_history(Kind(k), src, w.a, w.n, w.a2, w.n2, ops, st, true); throw; }
+		}
+	}
 	st.exhaustive = true;
 	st.cls("sweep_alphabet_size", alphabet.size());
 }
